@@ -46,12 +46,16 @@ def elaborate(spec):
     d = DesignTop(spec)
     top = TransactronContextElaboratable(d, transaction_manager=TransactionManager())
     err = None
-    try:
-        frag = Fragment.get(top, None)
-        design = frag.prepare(ports=d.inputs + d.outputs, hierarchy=("top",))
-        _ir.build_netlist(design)
-    except Exception as e:  # noqa: BLE001
-        err = e
+    from engine.hw import Recorder
+
+    with Recorder() as rec:  # which /repo functions ran (reported as functions under contract)
+        try:
+            frag = Fragment.get(top, None)
+            design = frag.prepare(ports=d.inputs + d.outputs, hierarchy=("top",))
+            _ir.build_netlist(design)
+        except Exception as e:  # noqa: BLE001
+            err = e
+    d.recorded_functions = rec.functions
     return d, err
 
 
@@ -97,6 +101,7 @@ def run(cfg, ctx):
         raise RuntimeError(f"oracle disagrees with the planted expectation for {cfg}: {reasons}")
     if raised != bool(reasons):
         failures.append({"design": cfg, "oracle_ill_formed_because": reasons, "elaboration_raised": repr(err)[:300]})
+    ctx.functions.update(d.recorded_functions)
     ctx.functions.update({("TransactionManager.elaborate", "transactron/core/manager.py"), ("MethodMap.__init__", "transactron/core/manager.py"),
                           ("TransactionManager._conflict_graph", "transactron/core/manager.py")})
     kind = "reject" if reasons else "accept"
